@@ -71,7 +71,13 @@ Lemma ex_premises :
   rec_fields T1 = Some [(Req, TInt); (Req, TAny)] /\ is_any TAny = true /\ gov_ok TInt (VInt 1) = true
   /\ holds_blob TAny TInt = false /\ no_eoo_prefix [2;1;12] = true
   /\ (exists ce, concrete_encoder BER T1 = Ok ce /\ sorts_members (fst ce) = false).
-Proof. repeat split; try (vm_compute; reflexivity). eexists. split; vm_compute; reflexivity. Qed.
+Proof.
+  repeat match goal with |- _ /\ _ => split end;
+    match goal with
+    | |- exists _, _ => eexists; split; [vm_compute; reflexivity | vm_compute; reflexivity]
+    | |- _ => vm_compute; reflexivity
+    end.
+Qed.
 
 (* ---- F01 (open, pinned): an EXPLICIT tag over a primitive in indefinite mode ---- *)
 Definition Tx := TExp (mkTag Ctx true 1) TInt.
